@@ -125,12 +125,9 @@ pub fn sweep(p: &Program, variant: usize) -> Result<(u64, u64), (String, String)
         if prep.is_null() {
             continue;
         }
-        // Positions whose meaning the property leaves open.
-        if let At::Occ(i) = at {
-            if l.occs[i].kind == OccKind::UseQualifier {
-                continue;
-            }
-        }
+        // Positions whose meaning the property leaves open. (On the qualifier part of `q.name`
+        // the server may offer either name: whatever it offers must then be what it renames,
+        // so only the "identifier under the cursor" and the expected-set rules are skipped.)
         if at == At::IdentEnd {
             continue;
         }
@@ -140,7 +137,7 @@ pub fn sweep(p: &Program, variant: usize) -> Result<(u64, u64), (String, String)
         let old = l.texts[mi].1[ps..pe].to_owned();
         if let At::Occ(i) = at {
             let o = &l.occs[i];
-            if (ps, pe) != (o.start, o.end) {
+            if o.kind != OccKind::UseQualifier && (ps, pe) != (o.start, o.end) {
                 return Err((
                     format!("prepareRename | range is not the identifier under the cursor | cursor on {on}"),
                     format!("at {here}: range selects {old:?}, identifier `{}` at {}..{}", o.text, o.start, o.end),
